@@ -355,7 +355,7 @@ def justifyParaCb (width : Int) (lineSep : List α) (jl : Bool) (_ : Nat) (para 
   pure [if se > 0 then gSub cx text ss (-se) else gSub cx text ss (gLen cx text)]
 
 theorem justifyOpts_para (ed : Editor α) (width : Int) (o : Options α)
-    (hpp : o.preservePara = true) :
+    (hpp : o.preservePara = true) (hph : cx.phA ∉ (o.withDefaults cx).lineSep) :
     ed.justifyOpts cx width o =
       ed.applyParasM cx (justifyParaCb cx width (o.withDefaults cx).lineSep
         (o.withDefaults cx).justifyLast) o := by
@@ -363,7 +363,7 @@ theorem justifyOpts_para (ed : Editor α) (width : Int) (o : Options α)
     rw [withDefaults_preservePara]; exact hpp
   rw [← applyParasM_withDefaults]
   unfold Editor.justifyOpts
-  simp only [hppd, if_true]
+  simp only [hppd, if_true, Ctx.placeholder_eq_phA cx hph]
   rfl
 
 /-- the paragraph callback of `AlignOpts` -/
@@ -670,10 +670,12 @@ theorem justifyOpts_bridge_para (hV : VocabStable V = true) (hsp : [0x20] ∈ V)
     (hA : [0x41] ∈ V) (hspTail : ∀ t ∈ V, (0x20 : Int) ∉ t.tail) (ed : Editor (List Int))
     (ht : ∀ t ∈ ed.text, t ∈ V) (width : Int) (o : Options (List Int))
     (hpp : o.preservePara = true)
-    (hG : GoodPara V (o.withDefaults cxB).lineSep (o.withDefaults cxB).paraSep) :
+    (hG : GoodPara V (o.withDefaults cxB).lineSep (o.withDefaults cxB).paraSep)
+    (hAL : (0x41 : Int) ∉ ((o.withDefaults cxB).lineSep).flatten) :
     Editor.justifyOpts cxA ed.flat width o.flat =
       (Editor.justifyOpts cxB ed width o).map Editor.flat := by
-  rw [justifyOpts_para cxA ed.flat width o.flat hpp, justifyOpts_para cxB ed width o hpp,
+  rw [justifyOpts_para cxA ed.flat width o.flat hpp (phA_not_mem_A o hG.line.tok_ne hAL),
+    justifyOpts_para cxB ed width o hpp (phA_not_mem_B hAL),
     lineSep_flat_gen o hG.line.tok_ne, (withDefaults_fields cxA o.flat).2.2.2.2.2.1,
     (withDefaults_fields cxB o).2.2.2.2.2.1]
   exact applyParasM_bridge hV ed ht o hG _ _
@@ -1047,7 +1049,7 @@ example (toks : List (List Int)) (ht : ∀ t ∈ toks, t ∈ demoVocabA) (align 
   exact ⟨alignOpts_bridge_para demoVocabA_stable (by decide) (.root toks o0) ht align width o hpp hG,
     indentOpts_bridge_para demoVocabA_stable (.root toks o0) ht level o hpp hG hi,
     justifyOpts_bridge_para demoVocabA_stable (by decide) (by decide) hspT (.root toks o0) ht width o
-      hpp hG,
+      hpp hG (by rw [(default_seps o hl hp).1]; decide),
     wrapOpts_bridge_para demoVocabA_stable (by decide) (by decide) (by decide) hspT (.root toks o0)
       ht width o hpp hG (by rw [(default_seps o hl hp).1]; decide)⟩
 
